@@ -602,3 +602,88 @@ pub fn run_same_query_n(prog: &Program, cfg: &RunCfg, n: usize) -> Vec<SeedRun> 
     }
     outs
 }
+
+/// Two iterators of queries that are alive at the same time: query A and query B are built (A first),
+/// iterator 1 of B yields `k` answers, then A is run to the end (or the cap), then a SECOND iterator
+/// of B is started and exhausted, then iterator 1 is continued to its end. Returns (answers of
+/// iterator 1, answers of iterator 2 of B). Each must be what B yields when run alone.
+pub fn run_query_interleaved(prog_a: &Program, prog_b: &Program, cfg: &RunCfg, k: usize) -> (SeedRun, SeedRun) {
+    trace("run_query_interleaved", prog_b);
+    let mut first = SeedRun::default();
+    let mut second = SeedRun::default();
+    let _ = take_last_panic();
+    verif::reset(cfg.step_budget.saturating_mul(3));
+    let a1: RefCell<Vec<Ans>> = RefCell::new(vec![]);
+    let a2: RefCell<Vec<Ans>> = RefCell::new(vec![]);
+    let ended: RefCell<(bool, bool)> = RefCell::new((false, false));
+    let r = catch_unwind(AssertUnwindSafe(|| {
+        let ba = Builder::new(prog_a);
+        let mut env_a = Env::new();
+        let (qa, ga) = ba.query_goal(&mut env_a);
+        let query_a: Query<R, U, E> = Query::new(qa, ga);
+        let bb = Builder::new(prog_b);
+        let mut env_b = Env::new();
+        let (qb, gb) = bb.query_goal(&mut env_b);
+        let query_b: Query<R, U, E> = Query::new(qb, gb);
+        let mut it1 = query_b.run_with_user(Mon::default(), ());
+        for _ in 0..k {
+            match it1.next() {
+                Some(res) => a1.borrow_mut().push(convert_answer(&res, false).0),
+                None => {
+                    ended.borrow_mut().0 = true;
+                    break;
+                }
+            }
+        }
+        // the older query is run while iterator 1 is suspended
+        let mut n = 0;
+        for _res in query_a.run_with_user(Mon::default(), ()) {
+            n += 1;
+            if n >= cfg.max_answers {
+                break;
+            }
+        }
+        // a second iterator of the same query value
+        let mut it2 = query_b.run_with_user(Mon::default(), ());
+        while a2.borrow().len() < cfg.max_answers {
+            match it2.next() {
+                Some(res) => a2.borrow_mut().push(convert_answer(&res, false).0),
+                None => {
+                    ended.borrow_mut().1 = true;
+                    break;
+                }
+            }
+        }
+        if !ended.borrow().0 {
+            while a1.borrow().len() < cfg.max_answers {
+                match it1.next() {
+                    Some(res) => a1.borrow_mut().push(convert_answer(&res, false).0),
+                    None => {
+                        ended.borrow_mut().0 = true;
+                        break;
+                    }
+                }
+            }
+        }
+    }));
+    first.steps = verif::steps();
+    verif::reset(u64::MAX);
+    let _ = verif::take_paths();
+    first.answers = a1.into_inner();
+    second.answers = a2.into_inner();
+    let (e1, e2) = ended.into_inner();
+    first.ended = e1;
+    second.ended = e2;
+    if let Err(e) = r {
+        if e.is::<verif::StepBudgetExceeded>() {
+            first.budget_exceeded = true;
+            second.budget_exceeded = true;
+            let _ = take_last_panic();
+        } else {
+            let p = take_last_panic().unwrap_or_default();
+            first.panic = Some(p.clone());
+            second.panic = Some(p);
+        }
+    }
+    (first, second)
+}
